@@ -846,6 +846,7 @@ pub fn run_c03(ctx: &Ctx) -> Report {
      listed lengths off by one, duplicate paths, changed piece length; crossed with trees (matching, missing, longer, shorter, flipped, swapped, directory, parent-is-file) and the four \
      content-root selections with a matching decoy at the non-selected root; non-trivial = at least one file and some mutation; distinct by case hash",
   );
+  report.rule.push_str("; dressed torrents (created-by imdl, *.utf-8 keys, upper-case md5sum); directories holding the expected bytes one level down; a share of C13's escaping entries; nine states around verify (200 files with 40 descriptors, 30 missing files all named, the torrent reached through a link, six-megabyte torrents through `-` and `/dev/stdin`, stray bytes after the digests, names illegal elsewhere, 140 levels deep)");
   report.correspondences.push("C03.verify: `imdl torrent verify` exit status and named files = Imdlv.Verifier.verify".into());
   let cases: Vec<Case> = match super::replay_cases(ctx) {
     Some(rc) => rc.iter().filter_map(Case::from_json).collect(),
@@ -999,6 +1000,7 @@ pub fn run_c13(ctx: &Ctx) -> Report {
     "hostile multi-file torrents: an escaping path (.. components, a/../.., separators inside a component, leading `.`, absolute component) at every position among ordinary files, \
      a decoy with matching bytes (and md5) planted at the escaped location, three content-root selections; whole-sandbox snapshot before/after; all cases non-trivial; distinct by case hash",
   );
+  report.rule.push_str("; also: escapes into a sibling whose name begins with the root's, entries that contribute nothing to the piece hashes, empty secrets, a `path.utf-8` list beside a harmless path, white-space padded `..`, line feeds, an empty path list, the escaping entry echoing the one before it, torrents dressed as imdl's own");
   report.correspondences.push("C13.verify: `imdl torrent verify` on escaping paths = Imdlv.Verifier.verify (refusal)".into());
   let cases: Vec<Case> = match super::replay_cases(ctx) {
     Some(rc) => rc.iter().filter_map(Case::from_json).collect(),
@@ -1050,6 +1052,7 @@ pub fn run_c02(ctx: &Ctx) -> Report {
      then random edits (flip, truncate, append, delete, replace by directory, add unrelated, revert, re-create --force) interleaved with `verify`; \
      each verify compared with S (byte comparison against the saved original, by the harness) and with the model; non-trivial = history with at least one edit before a verify; distinct by history hash",
   );
+  report.rule.push_str("; names with separators or dots (explicit output), a torrent file called otherwise than what it describes, the whole content removed and restored, other options of create riding along");
   report.correspondences.push("C02.history: exit status and named files of `imdl torrent verify` after each edit = Imdlv.Verifier.verify on the created torrent".into());
   if ctx.replay.is_some() {
     report.notes.push("C02 replays re-run the recorded seed".into());
